@@ -1,10 +1,9 @@
-// Kani harnesses for integer/src/cmp.rs + the PartialEq / Hash impls of Repr (C05): `==` holds exactly when
-// the values are equal, `cmp` is the order of the values and is Equal exactly when `==`, equal values feed
-// identical data to a Hasher.  Bounded: magnitudes of at most 3 words (4 for TypedReprRef), full 64-bit
-// symbolic words (comparisons only).  The oracle compares the VALUES (all words, top down, absent words = 0).
+// Kani harnesses for integer/src/cmp.rs (C05): `cmp_same_len`, `cmp_in_place` and Ord / PartialEq for
+// TypedReprRef compute the order of the VALUES, and Equal exactly when `==`.  (`==` / Hash for Repr and Ord for
+// UBig / IBig on arbitrary well-formed Repr states are in group int_repr: vk_int_repr_eq_cmp_hash_*, where the
+// states can be built from the fields.)  Bounded: magnitudes of at most 3 words (4 for TypedReprRef), full
+// 64-bit symbolic words (comparisons only).  The oracle compares all words, absent words = 0.
 use super::*;
-use crate::{buffer::Buffer, repr::Repr, Sign};
-use core::hash::{Hash, Hasher};
 include!("/verif/kani/harness/shim.rs");
 
 const NW: usize = 4;
@@ -36,24 +35,6 @@ fn low(w: &[Word; NW], n: usize) -> [Word; NW] {
         i += 1;
     }
     r
-}
-
-fn rev(o: Ordering) -> Ordering {
-    match o {
-        Ordering::Less => Ordering::Greater,
-        Ordering::Equal => Ordering::Equal,
-        Ordering::Greater => Ordering::Less,
-    }
-}
-
-/// Order of the signed values (-1)^neg * mag (zero is never negative in a model).
-fn ord_signed(an: bool, a: &[Word; NW], bn: bool, b: &[Word; NW]) -> Ordering {
-    match (an, bn) {
-        (false, false) => ord_val(a, b),
-        (false, true) => Ordering::Greater,
-        (true, false) => Ordering::Less,
-        (true, true) => ord_val(b, a),
-    }
 }
 
 // ---------------------------------------------------------------- cmp_same_len
@@ -92,134 +73,37 @@ fn vk_int_cmp_in_place() {
 }
 
 // ---------------------------------------------------------------- Ord / PartialEq for TypedReprRef
-// arbitrary well-formed refs: RefSmall(any dword) or RefLarge(3..=4 words, top word non-zero)
+// arbitrary well-formed refs: RefSmall(any dword) (class 0) or RefLarge(3 or 4 words, top word non-zero);
+// one call per pair of classes so that every slice has a concrete length
+fn typed_case(ca: usize, cb: usize) {
+    let wa: [Word; NW] = any();
+    let wb: [Word; NW] = any();
+    let (la, lb) = (if ca == 0 { 2 } else { ca }, if cb == 0 { 2 } else { cb });
+    assume(ca == 0 || wa[la - 1] != 0);
+    assume(cb == 0 || wb[lb - 1] != 0);
+    let a = if ca == 0 { RefSmall((wa[0] as u128) | ((wa[1] as u128) << 64)) } else { RefLarge(&wa[..la]) };
+    let b = if cb == 0 { RefSmall((wb[0] as u128) | ((wb[1] as u128) << 64)) } else { RefLarge(&wb[..lb]) };
+    let want = ord_val(&low(&wa, la), &low(&wb, lb));
+    assert!(a.cmp(&b) == want);
+    assert!(a.partial_cmp(&b) == Some(want));
+    assert!((a == b) == (want == Ordering::Equal));
+}
+
 #[cfg_attr(kani, kani::proof)]
 #[cfg_attr(kani, kani::unwind(40))]
 #[cfg_attr(not(kani), test)]
 fn vk_int_cmp_typed_ref() {
-    let wa: [Word; NW] = any();
-    let wb: [Word; NW] = any();
-    let (la, lb): (usize, usize) = (any(), any());
-    let (sa, sb): (bool, bool) = (any(), any());
-    assume(la >= 3 && la <= 4 && lb >= 3 && lb <= 4);
-    assume(wa[la - 1] != 0 && wb[lb - 1] != 0);
-    let (a, va) = if sa {
-        (RefSmall((wa[0] as u128) | ((wa[1] as u128) << 64)), low(&wa, 2))
-    } else {
-        (RefLarge(&wa[..la]), low(&wa, la))
-    };
-    let (b, vb) = if sb {
-        (RefSmall((wb[0] as u128) | ((wb[1] as u128) << 64)), low(&wb, 2))
-    } else {
-        (RefLarge(&wb[..lb]), low(&wb, lb))
-    };
-    let want = ord_val(&va, &vb);
-    assert!(a.cmp(&b) == want);
-    assert!(a.partial_cmp(&b) == Some(want));
-    assert!((a == b) == (want == Ordering::Equal));
+    let k: u8 = any();
+    match k {
+        0 => typed_case(0, 0),
+        1 => typed_case(0, 3),
+        2 => typed_case(0, 4),
+        3 => typed_case(3, 0),
+        4 => typed_case(4, 0),
+        5 => typed_case(3, 3),
+        6 => typed_case(3, 4),
+        7 => typed_case(4, 3),
+        _ => typed_case(4, 4),
+    }
     cover();
 }
-
-// ---------------------------------------------------------------- Repr / UBig / IBig: ==, cmp, hash
-/// Everything fed to the hasher, in order.
-struct Rec {
-    buf: [u8; 64],
-    n: usize,
-}
-impl Hasher for Rec {
-    fn finish(&self) -> u64 {
-        0
-    }
-    fn write(&mut self, bytes: &[u8]) {
-        let mut i = 0;
-        while i < bytes.len() {
-            assert!(self.n < 64);
-            self.buf[self.n] = bytes[i];
-            self.n += 1;
-            i += 1;
-        }
-    }
-}
-fn rec_eq(a: &Rec, b: &Rec) -> bool {
-    let mut ok = a.n == b.n;
-    let mut i = 0;
-    while i < 64 {
-        if i < a.n && a.buf[i] != b.buf[i] {
-            ok = false;
-        }
-        i += 1;
-    }
-    ok
-}
-
-/// A well-formed Repr made by the constructors (proved to establish wf_repr by group int_repr) and its value.
-/// class 1: one word (or zero); class 2: two words; class c >= 3: three words in a heap buffer of capacity c
-/// (same value, different capacities/histories must be indistinguishable).
-fn mk_val(class: usize) -> (Repr, bool, [Word; NW]) {
-    let w: [Word; NW] = any();
-    let neg: bool = any();
-    let sign = if neg { Sign::Negative } else { Sign::Positive };
-    if class == 1 {
-        assume(!(neg && w[0] == 0));
-        (Repr::from_word(w[0]).with_sign(sign), neg, low(&w, 1))
-    } else if class == 2 {
-        assume(w[1] != 0);
-        (Repr::from_dword((w[0] as u128) | ((w[1] as u128) << 64)).with_sign(sign), neg, low(&w, 2))
-    } else {
-        assume(w[2] != 0);
-        let mut b = Buffer::allocate_exact(class);
-        b.push(w[0]);
-        b.push(w[1]);
-        b.push(w[2]);
-        (Repr::from_buffer(b).with_sign(sign), neg, low(&w, 3))
-    }
-}
-
-fn body_repr(ca: usize, cb: usize) {
-    let (a, an, va) = mk_val(ca);
-    let (b, bn, vb) = mk_val(cb);
-    let same = an == bn && ord_val(&va, &vb) == Ordering::Equal;
-    // PartialEq for Repr
-    assert!((a == b) == same);
-    // Hash for Repr: equal values feed identical data
-    let mut ha = Rec { buf: [0; 64], n: 0 };
-    let mut hb = Rec { buf: [0; 64], n: 0 };
-    a.hash(&mut ha);
-    b.hash(&mut hb);
-    if same {
-        assert!(rec_eq(&ha, &hb));
-    }
-    // IBig: == / cmp / hash go through the same Repr
-    let (x, y) = (IBig(a), IBig(b));
-    let want = ord_signed(an, &va, bn, &vb);
-    assert!(x.cmp(&y) == want);
-    assert!(x.partial_cmp(&y) == Some(want));
-    assert!((x == y) == same);
-    assert!((want == Ordering::Equal) == same);
-    // UBig (non-negative values)
-    if !an && !bn {
-        let (p, q) = (UBig(x.0), UBig(y.0));
-        assert!(p.cmp(&q) == ord_val(&va, &vb));
-        assert!((p == q) == same);
-        assert!(p.abs_cmp(&q) == ord_val(&va, &vb));
-    } else {
-        // |x| vs |y|
-        assert!(x.abs_cmp(&y) == ord_val(&va, &vb));
-        assert!(x.abs_eq(&y) == (ord_val(&va, &vb) == Ordering::Equal));
-    }
-}
-
-macro_rules! per_class2 {
-    ($($name:ident = ($a:expr, $b:expr)),* $(,)?) => {$(
-        #[cfg_attr(kani, kani::proof)]
-        #[cfg_attr(kani, kani::unwind(66))]
-        #[cfg_attr(not(kani), test)]
-        fn $name() {
-            body_repr($a, $b);
-            cover();
-        }
-    )*};
-}
-per_class2!(vk_int_cmp_repr_1_1 = (1, 1), vk_int_cmp_repr_1_2 = (1, 2), vk_int_cmp_repr_2_1 = (2, 1),
-    vk_int_cmp_repr_2_2 = (2, 2), vk_int_cmp_repr_1_h3 = (1, 3), vk_int_cmp_repr_h3_2 = (3, 2),
-    vk_int_cmp_repr_h3_h3 = (3, 3), vk_int_cmp_repr_h3_h5 = (3, 5), vk_int_cmp_repr_h6_h4 = (6, 4));
